@@ -923,3 +923,39 @@ func (m *Machine) importStamp() *waddrmgr.BlockStamp {
 	bs.Height += 1000
 	return &bs
 }
+
+// OpDeriveBurst derives 2-5 distinct paths of one account through the key
+// cache (as a signer does), so that several derived keys sit in the cache when
+// the manager is locked next.
+func (m *Machine) OpDeriveBurst(t *rapid.T) {
+	s := m.drawScope(t)
+	a := m.drawAcct(t, s)
+	n := rapid.IntRange(2, 5).Draw(t, "burst")
+	for i := 0; i < n; i++ {
+		branch := uint32(rapid.IntRange(0, 1).Draw(t, "branch"))
+		index := uint32(rapid.IntRange(0, 20).Draw(t, "index"))
+		want := m.OracleAddr(a, branch, index)
+		kp := waddrmgr.DerivationPath{InternalAccount: a.Num, Account: a.Key.ChildNum, Branch: branch, Index: index, MasterKeyFingerprint: a.MasterFP}
+		priv, err := m.scoped(s.Scope).DeriveFromKeyPathCache(kp)
+		m.Case.Logf("derive-burst(cache) scope=%v acct=%d %d/%d locked=%v -> err=%v", s.Scope, a.Num, branch, index, m.Locked, err)
+		if m.privOK(a) {
+			if err != nil {
+				if isMgrErr(err, waddrmgr.ErrAccountNotCached) {
+					// load the account, then the cache path works
+					m.View(func(ns walletdb.ReadBucket) { m.scoped(s.Scope).AccountProperties(ns, a.Num) })
+					continue
+				}
+				m.Violation("DeriveFromKeyPathCache(scope %v account %d %d/%d) failed while unlocked: %v", s.Scope, a.Num, branch, index, err)
+			}
+			if !bytes.Equal(priv.Serialize(), want.Priv) {
+				m.Violation("DeriveFromKeyPathCache(scope %v account %d %d/%d) returned a key that is not the seed's child", s.Scope, a.Num, branch, index)
+			}
+			m.N["derive-cache-ok"]++
+			continue
+		}
+		if err == nil {
+			m.failDerivedWhileLocked(s, a, branch, index, priv, want)
+		}
+		m.N["derive-cache-refused"]++
+	}
+}
